@@ -19,6 +19,7 @@ import DateutilVerif.Proofs.TzStrTableJ
 import DateutilVerif.Proofs.TzStrTableN
 import DateutilVerif.Proofs.TzStrTableH
 import DateutilVerif.Proofs.TzStrRange
+import DateutilVerif.Proofs.TzStrRender
 import DateutilVerif.Model.TzRange
 
 namespace C08
@@ -285,6 +286,61 @@ theorem tzrange_eq_tzstr (z : Zone) (sd ed : Delta) (hd : z.hasdst = true)
   cases Except.ok.inj hz'
   exact ⟨hrefl, rfl⟩
 
+/-- **tzstr_render (partial): from the STRING to the zone.**  `render sp` is the TZ string of the
+    spelling `sp`: arbitrary non-empty ASCII-letter abbreviations, optional sign, the standard and
+    the optional daylight offset each in any of the spellings `h`/`hh`, `hhmm`, `hh:mm`, both rules in
+    any of the forms `Mm.w.d` / `Jn` / `n` with ARBITRARY digit tokens (values through `pyInt`),
+    optional `/time` as `h`, `hhmm`, `hh:mm` or `hh:mm:ss`.  Then `tzstr (render sp) posix` succeeds
+    and its zone is the zone of the POSIX spec `specOf sp posix` (GMT/UTC sign flip included) with the
+    given abbreviations.  Proved through: the tokenizer on class-homogeneous chunks
+    (`tokens_render`), compositional specifications of `parseOffset`, `ruleTime`, `stdRule`, the
+    abbreviation loop and the gate conditions over an abstract token array (`parse_render`).
+    Partial in that the `_delta` constructions are hypotheses (`hsd`, `htr`, `hed`; discharged for
+    `Mm.w.d` rules by `TzStr.delta_M`, for `Jn`/`n` they require the day number to pass the `ydayidx`
+    scan) and the offsets must be representable timedeltas (`hb1`, `hb2`). -/
+theorem tzstr_render_partial (sp : Spelling) (posix : Bool) (wf : WellFormed sp)
+    (hb1 : tdCheck (sp.stdVal posix) = .ok ()) (hb2 : tdCheck (sp.dstVal posix) = .ok ())
+    (sd ed : Delta)
+    (hsd : delta (sp.startRule.attr (sp.startTime.map TimeSp.val)) false (sp.stdVal posix) (sp.dstVal posix) = .ok sd)
+    (htr : sd.truthy = true)
+    (hed : delta (sp.endRule.attr (sp.endTime.map TimeSp.val)) true (sp.stdVal posix) (sp.dstVal posix) = .ok ed) :
+    ∃ z, tzstr (render sp) posix = .ok z ∧ IsZoneOf (specOf sp posix) z ∧
+      z.stdAbbr = some sp.std ∧ z.dstAbbr = some sp.dst := by
+  obtain ⟨z, h1, h2, h3, h4, h5, h6, h7, h8, h9, h10⟩ := TzStr.tzstr_render_partial sp posix wf hb1 hb2 sd ed hsd htr hed
+  exact ⟨z, h1, ⟨h2, h3, h4, sd, ed, h5, h6, h7, h8⟩, h9, h10⟩
+
+/-- **tzstr_string_posix_partial: string → transitions → lookup = POSIX.**  The composition of
+    `tzstr_render_partial` with `tzstr_posix_partial`: the statement starts from the string. -/
+theorem tzstr_string_posix_partial (sp : Spelling) (posix : Bool) (wf : WellFormed sp)
+    (hb1 : tdCheck (sp.stdVal posix) = .ok ()) (hb2 : tdCheck (sp.dstVal posix) = .ok ())
+    (sd ed : Delta)
+    (hsd : delta (sp.startRule.attr (sp.startTime.map TimeSp.val)) false (sp.stdVal posix) (sp.dstVal posix) = .ok sd)
+    (htr : sd.truthy = true)
+    (hed : delta (sp.endRule.attr (sp.endTime.map TimeSp.val)) true (sp.stdVal posix) (sp.dstVal posix) = .ok ed)
+    (hs : ValidRule (specOf sp posix).startRule) (he : ValidRule (specOf sp posix).endRule)
+    (ht : InRangeTimes (specOf sp posix)) (hsav : (specOf sp posix).stdOff < (specOf sp posix).dstOff)
+    (t Y m : Int) (hY : TZ.yearOf t = Y) (hY1 : 3 ≤ Y) (hY2 : Y ≤ 9997)
+    (m1 : -m ≤ (specOf sp posix).stdOff) (m2 : (specOf sp posix).stdOff ≤ m)
+    (m3 : -m ≤ (specOf sp posix).dstOff) (m4 : (specOf sp posix).dstOff ≤ m)
+    (m5 : (specOf sp posix).dstOff - (specOf sp posix).stdOff ≤ m)
+    (i0 : TZ.InsideM (specOf sp posix) (Y - 1) m) (i1 : TZ.InsideM (specOf sp posix) Y m)
+    (i2 : TZ.InsideM (specOf sp posix) (Y + 1) m)
+    (o0 : startUtc (specOf sp posix) (Y - 1) < endUtc (specOf sp posix) (Y - 1) ↔
+          startUtc (specOf sp posix) Y < endUtc (specOf sp posix) Y)
+    (o2 : startUtc (specOf sp posix) (Y + 1) < endUtc (specOf sp posix) (Y + 1) ↔
+          startUtc (specOf sp posix) Y < endUtc (specOf sp posix) Y) :
+    ∃ z w, tzstr (render sp) posix = .ok z ∧ (TZ.ofTzStr z).fromutc t = .ok w ∧
+      (TZ.ofTzStr z).utcoffset w = .ok (Posix.offsetAt (specOf sp posix) (t + TZ.epochShift)) ∧
+      (TZ.ofTzStr z).dst w = .ok (if Posix.isDstAt (specOf sp posix) (t + TZ.epochShift)
+        then (specOf sp posix).dstOff - (specOf sp posix).stdOff else 0) ∧
+      (TZ.ofTzStr z).tzname w = .ok (if Posix.isDstAt (specOf sp posix) (t + TZ.epochShift)
+        then TZ.abbrBytes (some sp.dst) else TZ.abbrBytes (some sp.std)) := by
+  obtain ⟨z, hz1, hz2, hz3, hz4⟩ := tzstr_render_partial sp posix wf hb1 hb2 sd ed hsd htr hed
+  obtain ⟨w, w1, w2, w3, w4⟩ := tzstr_posix_partial (specOf sp posix) z hz2 hs he ht hsav t Y m hY hY1 hY2
+    m1 m2 m3 m4 m5 i0 i1 i2 o0 o2
+  rw [hz3, hz4] at w4
+  exact ⟨z, w, hz1, w1, w2, w3, w4⟩
+
 /-- **C08 (no daylight part).** A string without a daylight abbreviation is a fixed-offset zone:
     no DST, no transitions in any year — for every string and either `posix_offset` setting. -/
 theorem no_dst_part_is_fixed (s : String) (posix : Bool) (z : Zone) (h : tzstr s posix = .ok z)
@@ -387,5 +443,26 @@ example : (TZ.ofTzStr usZone).fromutc 1719835200 = .ok ⟨1719835200 - 14400, fa
 
 example : ∃ sd ed, usZone.start = some sd ∧ usZone.«end» = some ed ∧ sd.truthy = true ∧
     tdCheck usZone.stdOff = .ok () ∧ tdCheck usZone.dstOff = .ok () := ⟨_, _, rfl, rfl, by decide, by decide, by decide⟩
+
+/-! non-vacuity of `tzstr_render_partial`: three spellings -/
+def n (t : String) (v : Int) : Num := ⟨t, v⟩
+def spUS : Spelling :=
+  { std := "EST", stdOff := ⟨none, .h (n "5" 5)⟩, dst := "EDT", dstOff := none,
+    startRule := .M (n "3" 3) (n "2" 2) (n "0" 0), startTime := none,
+    endRule := .M (n "11" 11) (n "1" 1) (n "0" 0), endTime := none }
+def spCET : Spelling :=
+  { std := "CET", stdOff := ⟨some false, .h (n "1" 1)⟩, dst := "CEST", dstOff := none,
+    startRule := .M (n "3" 3) (n "5" 5) (n "0" 0), startTime := none,
+    endRule := .M (n "10" 10) (n "5" 5) (n "0" 0), endTime := some (.h (n "3" 3)) }
+def spNST : Spelling :=
+  { std := "NST", stdOff := ⟨none, .colon (n "3" 3) (n "30" 30)⟩, dst := "NDT", dstOff := none,
+    startRule := .M (n "3" 3) (n "2" 2) (n "0" 0), startTime := some (.hm (n "0" 0) (n "01" 1)),
+    endRule := .M (n "11" 11) (n "1" 1) (n "0" 0), endTime := some (.hm (n "0" 0) (n "01" 1)) }
+example : render spUS = "EST5EDT,M3.2.0,M11.1.0" ∧ render spCET = "CET-1CEST,M3.5.0,M10.5.0/3" ∧
+    render spNST = "NST3:30NDT,M3.2.0/0:01,M11.1.0/0:01" := by decide
+example : (specOf spUS false).stdOff = -18000 ∧ (specOf spUS false).dstOff = -14400 ∧
+    (specOf spCET false).stdOff = 3600 ∧ (specOf spNST false).stdOff = -12600 ∧
+    (specOf spNST false).startTime = 60 := by decide
+example : parse (render spNST) = .ok (some spNST.res) := by decide
 
 end C08
